@@ -208,6 +208,8 @@ func runFormCase(t fataler, d *form.Data, plans []fieldPlan, ops []setOp, caseSt
 		ev.Failf(t, "%s\n%s", caseStr, fmt.Sprintf(format, args...))
 	}
 
+	// the form as built, before anything is set or submitted
+	formBefore, berr := xml.Marshal(d)
 	set := map[string]any{}
 	for _, o := range ops {
 		var ok bool
@@ -293,7 +295,28 @@ func runFormCase(t fataler, d *form.Data, plans []fieldPlan, ops []setOp, caseSt
 			fail("field %q (%s) was set to %v but the submission carries %q, want %q\nsubmission: %q", id, typ, v, got, want, data)
 		}
 	}
-	// the decoded submission is a form value like any other
+	// filling in and submitting a form, and encoding the submission, must leave
+	// the form itself alone: it still encodes to what it encoded to before, and a
+	// second submission is the same document as the first
+	if berr == nil {
+		if after, err := xml.Marshal(d); err != nil {
+			fail("encoding the form after Submit failed: %v", err)
+		} else {
+			cb, e1 := canonFromBytes(formBefore)
+			ca, e2 := canonFromBytes(after)
+			if e1 == nil && e2 == nil && cb.String() != ca.String() {
+				fail("Set/Submit changed what the form itself encodes to:\n before: %q\n after:  %q", formBefore, after)
+			}
+		}
+	}
+	var sub2 xml.TokenReader
+	if pn := ev.Guard(func() { sub2, _ = d.Submit() }); pn != "" {
+		fail("second Submit panicked: %s", pn)
+	}
+	if dataB, cB, errB := readSubmission(sub2); errB != nil || cB.String() != c.String() {
+		fail("submitting the same form twice gives different documents (encoding the first submission changed the form):\n first:  %q\n second: %q (%v)", data, dataB, errB)
+	}
+	// the decoded submission, too, must not change when it is encoded
 	var data3 []byte
 	if pn := ev.Guard(func() { data3, err = xml.Marshal(&d2) }); pn != "" {
 		fail("encoding the decoded submission panicked: %s\nsubmission: %q", pn, data)
